@@ -427,9 +427,8 @@ func (in *Interp) havoc(t types.Type, tag string, nilable bool) Value {
 			obj := in.newObj(SArray{A: &baseArr{sym: arr, w: w}, W: w, N: n}, t)
 			return Slice{Base: Ptr{Obj: obj}, Off: in.u64(0), Len: n, Cap: n}
 		}
-		if nilable {
-			return in.zero(t)
-		}
+		// slices of non-scalar elements: the empty (nil) slice stands for "some value"
+		return in.zero(t)
 	case *types.Pointer:
 		if nilable && in.choose(2) == 1 {
 			return Ptr{}
